@@ -254,6 +254,27 @@ Definition overlapping (ps : list (list frag)) : bool :=
      | p :: ps' => existsb (fun q => is_prefix (no_root p) (no_root q) || is_prefix (no_root q) (no_root p)) ps' || go ps'
      end) ps.
 
+(* the members of [parent] that Set's last fragment addresses (existing or to be created) *)
+Definition set_targets (f : frag) (parent : jv) : list frag :=
+  match f, parent with
+  | FChild k, JObj _ => [FChild k]
+  | FNth i, JArr l => match nth_norm (Z.of_nat (length l)) i with Some k => [FNth k] | None => [] end
+  | FWild, JArr l => map (fun ix => FNth (fst ix)) (indexed_from 0 l)
+  | FWild, JObj m => map (fun kv => FChild (fst kv)) m
+  | FUnion us, JObj _ => flat_map (fun u => match u with UKey k => [FChild k] | _ => [] end) us
+  | FUnion us, JArr l =>
+      flat_map (fun u => match u with
+                         | UIdx i => match nth_norm (Z.of_nat (length l)) i with Some k => [FNth k] | None => [] end
+                         | _ => [] end) us
+  | _, _ => []
+  end.
+
+(* a target location (parent + addressed member) that is a prefix of another parent: the result
+   would depend on the order in which the locations are visited *)
+Definition targets_block_parents (f : frag) (parents : list pv) : bool :=
+  let targets := flat_map (fun par => map (fun t => fst par ++ [t]) (set_targets f (snd par))) parents in
+  existsb (fun t => existsb (fun par => is_container (snd par) && is_prefix (no_root t) (no_root (fst par))) parents) targets.
+
 (* Set/Del: every child/index step on the way finds its member (nothing has to be created
    and no scalar has to be followed), and the last fragment applies to every parent *)
 Fixpoint all_steps_match (x : expr) (root : jv) (pvs : list pv) : bool :=
@@ -263,6 +284,7 @@ Fixpoint all_steps_match (x : expr) (root : jv) (pvs : list pv) : bool :=
       let step pv := sel_loc_six six f (match x' with [] => true | _ => false end) root pv in
       (match f with
        | FChild _ | FNth _ => forallb (fun pv => match step pv with [] => false | _ => true end) pvs
+       | FDescent => forallb (fun pv => is_container (snd pv)) pvs   (* a scalar cannot be descended into *)
        | _ => true
        end) && all_steps_match x' root (flat_map step pvs)
   end.
@@ -282,8 +304,13 @@ Definition set_comparable (x : expr) (d : jv) : bool :=
   | [] => false
   | _ =>
       all_steps_match (removelast x) d [([], d)] &&
-      forallb (fun par => last_applies (last x FRoot) (snd par)) (parents_of x d) &&
-      negb (overlapping (map fst (parents_of x d))) &&
+      (* below a descent every container is visited and the ones the last fragment does not apply
+         to are passed over silently *)
+      ((match last (removelast x) FRoot, last x FRoot with
+        | FDescent, (FChild _ | FWild) => true
+        | _, _ => false end) ||
+       forallb (fun par => last_applies (last x FRoot) (snd par)) (parents_of x d)) &&
+      negb (targets_block_parents (last x FRoot) (parents_of x d)) &&
       match parents_of x d with [] => false | _ => true end
   end.
 
@@ -300,21 +327,6 @@ Definition single_last (op : Z) (f : frag) (v : jv) (g : jv -> jv) (parent : jv)
       else if op =? 2 then JArr (drop_indexes 0 [i] l)
       else JArr (list_upd (Z.to_nat i) g l)
   | _, _ => parent
-  end.
-
-(* the members of [parent] that Set's last fragment addresses (existing or to be created) *)
-Definition set_targets (f : frag) (parent : jv) : list frag :=
-  match f, parent with
-  | FChild k, JObj _ => [FChild k]
-  | FNth i, JArr l => match nth_norm (Z.of_nat (length l)) i with Some k => [FNth k] | None => [] end
-  | FWild, JArr l => map (fun ix => FNth (fst ix)) (indexed_from 0 l)
-  | FWild, JObj m => map (fun kv => FChild (fst kv)) m
-  | FUnion us, JObj _ => flat_map (fun u => match u with UKey k => [FChild k] | _ => [] end) us
-  | FUnion us, JArr l =>
-      flat_map (fun u => match u with
-                         | UIdx i => match nth_norm (Z.of_nat (length l)) i with Some k => [FNth k] | None => [] end
-                         | _ => [] end) us
-  | _, _ => []
   end.
 
 Definition one_candidates (op : Z) (x : expr) (v : jv) (g : jv -> jv) (d : jv) : list jv :=
